@@ -147,6 +147,8 @@ def check(chk, repo):
     n += check_predict(chk, rep, repo, "KNNSupervisedOPF", ["predicted_label"])
     n += check_predict(chk, rep, repo, "UnsupervisedOPF", ["predicted_label", "cluster_label"])
     chk.floor("k-nearest scans in the two predict methods", n, 2)
+    from ..common import check_model_premises
+    check_model_premises(rep, repo)
     # the stored constant / range are written by calculate_pdf (C12 decides their formulas)
     from ..common import graph_walk
     w = graph_walk(repo, "KNNSubgraph", "calculate_pdf")
